@@ -109,7 +109,11 @@ def _yaml_call(rng, profile):
 
 
 def _fault(rng):
-    seam = rng.pick(["solve", "solve", "write", "read", "abort", "clock"])
+    seam = rng.pick(["solve", "solve", "write", "read", "abort", "clock", "time", "time"])
+    if seam == "time":
+        # harmless by themselves: a solve that takes minutes to hours of wall time, or a wall clock that steps forwards /
+        # backwards while a solve runs. The job must return exactly what it returns alone
+        return {"seam": "solve", "at": rng.randrange(9), "kind": rng.pick(["slow", "slow", "clock:86400", "clock:-7200", "clock:600"])}
     if seam == "solve":
         return {"seam": "solve", "at": rng.randrange(9), "kind": rng.pick(["exec", "status:-1", "status:0", "status:-2", "slow", "iterate:-1", "iterate:0"])}
     if seam == "write":
@@ -154,8 +158,13 @@ def generate(seed, h, tier):
             faults[str(fr.randrange(n))] = [_fault(fr)]
     er = rng.sub("env")
     fresh = None
-    if tier == "thorough" or er.chance(0.3):
-        fresh = {"call": er.randrange(n), "env": er.pick(ENVS)}
+    if tier == "thorough" or er.chance(0.5):
+        # every unit job of one call, each alone in a true fresh interpreter whose hash seed (set / dict order of
+        # strings), time zone and locale differ from this process's
+        env = dict(er.pick(ENVS))
+        if er.chance(0.6):
+            env["PYTHONHASHSEED"] = str(1 + er.randrange(2 ** 31 - 1))
+        fresh = {"call": er.randrange(n), "env": env, "all_units": True}
     return {"h": h, "calls": calls, "faults": faults, "fresh": fresh}
 
 
@@ -277,11 +286,18 @@ def execute(spec):
     refs = {}
     for k, (st, val) in zip(keys, core.run_forked([units[k] for k in keys], _run_alone, workers=2, timeout=300)):
         refs[k] = val if st == "ok" else {"status": "harness:" + st, "digest": None, "error": str(val)[-500:]}
-    fresh_out = None
+    fresh_out = []
     if spec.get("fresh"):
         c = calls[spec["fresh"]["call"] % len(calls)]
-        u = unit_jobs(c)[0]
-        fresh_out = (core.digest(u), fresh_interpreter(u, spec["fresh"]["env"]))
+        us = unit_jobs(c)
+        if not spec["fresh"].get("all_units"):
+            us = us[:1]
+        seen_u = set()
+        for u in us[:4]:
+            if core.digest(u) in seen_u:
+                continue
+            seen_u.add(core.digest(u))
+            fresh_out.append((core.digest(u), fresh_interpreter(u, spec["fresh"]["env"])))
 
     # ---- the history itself
     rng = core.Rng("C14-exec", spec["h"])
@@ -389,14 +405,13 @@ def execute(spec):
                         {"call_index": i}, "a returned result object was changed by a later run").to_json())
     finally:
         world.leave_history(d)
-    if fresh_out:
-        k, fr = fresh_out
+    for k, fr in fresh_out:
         ref = refs[k]
         if not fr["status"].startswith("harness") and not ref["status"].startswith("harness"):
             clauses["fresh_interpreter_same"] += 1
             if fr["status"] != ref["status"] or fr["digest"] != ref["digest"]:
                 violations.append(core.Violation(
-                    ID, "same_as_alone", {"kind": "fresh_interpreter_differs"},
+                    ID, "same_as_alone", {"kind": "fresh_interpreter_differs", "iso3": units[k]["iso3"]},
                     {"env": spec["fresh"]["env"], "fresh": fr, "fork": ref, "job": units[k]},
                     "result in a fresh interpreter under a skewed environment differs").to_json())
     faults_fired = core.fault_counts(log)
@@ -406,7 +421,7 @@ def execute(spec):
         "nontrivial": nontrivial,
         "clauses": clauses,
         "faults": faults_fired,
-        "probes": {"histories_with_faults": 1 if spec["faults"] else 0, "fresh_interpreter_runs": 1 if fresh_out else 0},
+        "probes": {"histories_with_faults": 1 if spec["faults"] else 0, "fresh_interpreter_runs": len(fresh_out)},
         "statuses": statuses,
         "log_digest": log.digest(),
         "sim_months": sim_months,
